@@ -212,9 +212,12 @@ class _RedisConsumer(ConsumerT):
             # mark message as processing
             self.__mark_processing(msg_short_name, full_queue_name, pipe)
             try:
-                await pipe.execute()
+                removed, *_ = await pipe.execute()
             except Exception:  # pragma: no cover  # noqa: BLE001
                 return None
+        if not removed:
+            # another consumer has taken the message after its name was fetched
+            return None
         return msg_short_name
 
     async def __get_message_normal(
